@@ -9,6 +9,7 @@ import c_vector
 import c_point
 import c_matrix
 import c_quat
+import c_angle
 import sym
 
 
@@ -108,6 +109,23 @@ def unit_C04(src, model='R'):
     return u
 
 
+def unit_C13(src, model='R'):
+    u = Unit('C13', src, model)
+    lib = SpecLib()
+    F = {}
+    c_angle.build(lib, F)
+    u.spec_texts.append(lib.text())
+    u.spec_texts.append(c_angle.text_specs())
+    u.contract_fns += [c_angle.contracts]
+    c_angle.select_c13(u)
+    u.struct_names = ['Rad', 'Deg']
+    u.extra_prelude.append(c_angle.trusted_prelude())
+    u.lemma_texts.append(sym.HELPER_LEMMAS)
+    u.lemma_texts.append(c_angle.handwritten_laws())
+    add_laws(u, c_angle.laws(F))
+    return u
+
+
 def unit_C01t(src, model='R'):
     """twin of C01 holding `Transform<Point2<S>> for Matrix3<S>` (see c_matrix.select_c01)"""
     u = Unit('C01t', src, model)
@@ -120,7 +138,7 @@ def build_C03(src, tier):
     return [unit_C03(src, 'R')]
 
 
-UNITS = {'C04': lambda src, tier: [unit_C04(src, 'R')], 'C02': lambda src, tier: [unit_C02(src, 'R')], 'C01': lambda src, tier: [unit_C01(src, 'R'), unit_C01t(src, 'R')], 'C03': build_C03, 'C12': lambda src, tier: [unit_C12(src, 'R')]}
+UNITS = {'C13': lambda src, tier: [unit_C13(src, 'R')], 'C04': lambda src, tier: [unit_C04(src, 'R')], 'C02': lambda src, tier: [unit_C02(src, 'R')], 'C01': lambda src, tier: [unit_C01(src, 'R'), unit_C01t(src, 'R')], 'C03': build_C03, 'C12': lambda src, tier: [unit_C12(src, 'R')]}
 KANI = {}
 META = {
     'C03': dict(min_obligations=350, trust=['A1', 'A2', 'A6'],
